@@ -209,8 +209,10 @@ pub fn parse_report(md: &MarkdownIt, src: &str, flags: &str) -> String {
             if flags.contains('E') { res.push_str(&format!(" ev={}", rec.ev.join("|"))); }
             if flags.contains('W') {
                 let mut n = 0u64; let mut maxd = 0u32;
-                a.walk(|_, d| { n += 1; if d > maxd { maxd = d; } });
-                res.push_str(&format!(" walk={}/{}", n, maxd));
+                let top = stack_mark(); let mut used = 0usize;
+                a.walk(|_, d| { n += 1; if d > maxd { maxd = d; } used = used.max(top.saturating_sub(stack_mark())); });
+                a.walk_mut(|_, _| { used = used.max(top.saturating_sub(stack_mark())); });
+                res.push_str(&format!(" walk={}/{} wstk={}", n, maxd, used));
             }
             return res;
         }
@@ -220,10 +222,20 @@ pub fn parse_report(md: &MarkdownIt, src: &str, flags: &str) -> String {
     if flags.contains('W') {
         // exercise the recursive walk on the result (C02: walk must survive)
         let mut n = 0u64; let mut maxd = 0u32;
-        root.walk(|_, d| { n += 1; if d > maxd { maxd = d; } });
-        res.push_str(&format!(" walk={}/{}", n, maxd));
+        let top = stack_mark(); let mut used = 0usize;
+        root.walk(|_, d| { n += 1; if d > maxd { maxd = d; } used = used.max(top.saturating_sub(stack_mark())); });
+        let mut root = root;
+        root.walk_mut(|_, _| { used = used.max(top.saturating_sub(stack_mark())); });
+        res.push_str(&format!(" walk={}/{} wstk={}", n, maxd, used));
     }
     res
+}
+
+// address of a local: how much stack lies between two calls (C02: walk recurses per level, not per sibling)
+#[inline(never)]
+pub fn stack_mark() -> usize {
+    let x = 0u8;
+    std::hint::black_box(&x) as *const u8 as usize
 }
 
 pub fn cmd_parse(a: &[&str]) -> String {
